@@ -3,6 +3,11 @@
 (* `read` event carries the octets, the probed slice-iterator offsets and    *)
 (* the projection the library produced; TLC recomputes the projection from   *)
 (* the octets with Wire.tla and requires equality, component by component.   *)
+(* Each `pair` event carries two octet strings and the pair projection the   *)
+(* library produced (is_answer both ways, question sections / first / sole   *)
+(* question compared, the client request types' is_answer, the reply started *)
+(* for either message, copy_records into it, the transfer interpreter fed    *)
+(* both); TLC recomputes it with MsgPair.tla.                                *)
 (* `total` events are messages beyond the size cap: only "no panic, same     *)
 (* twice" is claimed for them.  Deviations listed as open are passed as      *)
 (* environment variables named like the deviation.                           *)
@@ -15,6 +20,7 @@ OpenDevs == {d \in AllDevs : d \in DOMAIN IOEnv}
 
 W == INSTANCE Wire WITH Dev <- OpenDevs
 Ideal == INSTANCE Wire WITH Dev <- {}
+P == INSTANCE MsgPair WITH Dev <- OpenDevs
 
 VARIABLES l, used      \* position in the trace; deviations witnessed so far
 tvars == <<l, used>>
@@ -85,7 +91,24 @@ T_Total ==
   /\ used' = used \cup (IF Rec[l].cname_panic THEN {"D_cname_ancount_overflow"} ELSE {})
                   \cup (IF Rec[l].xfr_panic THEN {"D_xfr_unreachable_qtype"} ELSE {})
 
-TNext == T_Read \/ T_Total
+\* the pair projection: every component is what MsgPair.tla says; feeding
+\* the transfer interpreter may only panic where the open deviation says so
+PairMatches(a, b, exp, obs) ==
+  /\ DOMAIN obs = DOMAIN exp
+  /\ \A c \in DOMAIN exp \ {"xfrseq"} : obs[c] = exp[c]
+  /\ "xfrseq" \in DOMAIN exp =>
+        \/ obs.xfrseq = "nopanic"
+        \/ obs.xfrseq = "panic" /\ P!XfrSeq(a, b) = "panic"
+
+T_Pair ==
+  /\ IsEv("pair")
+  /\ LET exp == P!PairProj(Rec[l].a, Rec[l].b)
+         obs == Rec[l].proj
+     IN /\ (IF PairMatches(Rec[l].a, Rec[l].b, exp, obs) THEN TRUE ELSE FALSE)
+        /\ used' = used \cup (IF "xfrseq" \in DOMAIN obs /\ obs.xfrseq = "panic"
+                                THEN {"D_xfr_unreachable_qtype"} ELSE {})
+
+TNext == T_Read \/ T_Total \/ T_Pair
 TSpec == TInit /\ [][TNext]_tvars
 
 Accepted ==
